@@ -43,12 +43,12 @@ Proof.
 Qed.
 Print Assumptions port_check_covers_k8s.
 
-(* every value a pod's requirement admits satisfies its node selector and its first required term *)
-Theorem pod_requirements_sound : forall (all : bool) (p : pod) (k v : string),
-  has (get (pod_reqs all p) k) v = true ->
-  (forall val, List.In (k, val) (p_sel p) -> k8s_match In [val] (Some v) = true) /\
+(* every value a pod's requirement admits for the (normalised) key of a constraint satisfies that constraint: node
+   selector and first required term *)
+Theorem pod_requirements_sound : forall (all : bool) (p : pod),
+  (forall k val v, List.In (k, val) (p_sel p) -> has (get (pod_reqs all p) (nk k)) v = true -> k8s_match In [val] (Some v) = true) /\
   (forall t rest, p_req p = t :: rest -> valid_term t ->
-     forall o vs, List.In (k, o, vs) t -> k8s_match o vs (Some v) = true).
+     forall k o vs v, List.In (k, o, vs) t -> has (get (pod_reqs all p) (nk k)) v = true -> k8s_match o vs (Some v) = true).
 Proof. exact pod_reqs_sound. Qed.
 Print Assumptions pod_requirements_sound.
 
@@ -73,13 +73,14 @@ Print Assumptions nc_step_preserves_inv.
 
 (* after ANY sequence of CanAdd/Add attempts against a fresh claim: every placed pod tolerates the taints;
    for every key on which the claim still admits a value, every label the node may get satisfies the pod's node
-   selector and the required term it was placed with; and for EVERY remaining instance type there is an available
+   selector and the required term it was placed with, and one of the pod's volume-topology alternatives admits every
+   value the claim admits; and for EVERY remaining instance type there is an available
    offering compatible with the claim's requirements whose allocatable holds the summed requests of all placed pods
    plus the daemon overhead.  (partial: the guard "the claim admits a value for the key" — see the refutation) *)
 Theorem nc_options_admissible_partial : forall wk cat all n0 ops,
   nc_wf n0 -> nc_pods n0 = [] -> nc_requests n0 = [] -> Forall (fun op => pod_wf (fst op)) ops ->
   let n := nc_exec wk cat all n0 ops in
-  (forall p, List.In p (nc_pods n) -> k8s_tolerated (nc_taints n) (p_tols p) /\ chosen_ok (nc_reqs n) p) /\
+  (forall p, List.In p (nc_pods n) -> k8s_tolerated (nc_taints n) (p_tols p) /\ chosen_ok (nc_reqs n) p /\ valts_ok (nc_reqs n) p) /\
   (nc_pods n <> [] -> forall name, List.In name (nc_its n) ->
      exists i g alloc offs o, List.In i cat /\ it_name i = name /\ List.In g (nc_groups n) /\ List.In name (dg_its g) /\
        List.In (alloc, offs) (it_groups i) /\ List.In o offs /\ compatible wk (nc_reqs n) o = true /\
@@ -102,17 +103,21 @@ Qed.
 Print Assumptions nc_absent_label_refuted.
 
 (* ---- ExistingNode ---- *)
-Theorem ex_step_preserves_inv : forall all rem0 n p, pod_wf p -> ex_inv rem0 n -> ex_inv rem0 (fst (ex_step all n p)).
+Theorem ex_step_preserves_inv : forall all rem0 vols0 n p, pod_wf p -> ex_inv rem0 vols0 n -> ex_inv rem0 vols0 (fst (ex_step all n p)).
 Proof. exact ex_step_preserves. Qed.
 Print Assumptions ex_step_preserves_inv.
 
-(* over any sequence of attempts the pods placed on an existing node stay within what was left for them *)
-Theorem ex_requests_within_remaining : forall all ops n0,
+(* over any sequence of attempts the pods placed on an existing node stay within what was left for them, the distinct
+   volumes per CSI driver (already attached + placed) stay within the CSINode attach limits, and every placed pod has
+   a volume-topology alternative that admits whatever the node's requirements admit *)
+Theorem ex_requests_and_volumes_within_limits : forall all ops n0,
   Forall pod_wf ops -> en_pods n0 = [] -> (forall k, 0 <= rget k (en_remaining n0)) ->
   let n := ex_exec all n0 ops in
-  forall k, rsum (map p_requests (en_pods n)) k <= rget k (en_remaining n0).
+  (forall k, rsum (map p_requests (en_pods n)) k <= rget k (en_remaining n0)) /\
+  (en_pods n <> [] -> forall d l, List.In (d, l) (en_vlimits n0) -> vcount d (en_vols n0 ++ flat_map p_vols (en_pods n)) <= l) /\
+  (forall p, List.In p (en_pods n) -> valts_ok (en_reqs n) p).
 Proof. exact ex_resources_l. Qed.
-Print Assumptions ex_requests_within_remaining.
+Print Assumptions ex_requests_and_volumes_within_limits.
 
 (* F12 (known finding existing-node-undefined-label-after-notin): a node without a `team` label accepts
    `team NotIn [a]` and then `team In [b]`; in the other order the second pod is rejected *)
@@ -131,9 +136,51 @@ Print Assumptions ex_labels_refuted.
 Theorem ex_daemon_ports_refuted :
   exists all n labels alloc p d,
     map p_key (en_pods (ex_exec all n [p])) = [p_key p] /\
-    existing_admissible_b labels (en_taints n) alloc [] [p] [d] = false.
+    existing_admissible_b labels (en_taints n) alloc [] [] [p] [d] = false.
 Proof. exists true, f12_node, [("zone", "z1")], [("cpu", 4000)], f13_pod, f13_daemon. exact f13_accepted. Qed.
 Print Assumptions ex_daemon_ports_refuted.
+
+(* ---- pairwise host-port invariant over arbitrary op sequences (distinct pods) ---- *)
+(* existing node: no two placed pods, nor a placed pod and anything reserved on the node (bound pods), share a
+   host-port triple in Kubernetes' sense *)
+Theorem ex_ports_pairwise : forall all ops n0,
+  NoDup (map p_key ops) -> en_pods n0 = [] -> usage_ok (en_ports n0) ->
+  let n := ex_exec all n0 ops in
+  (forall p q a b, List.In p (en_pods n) -> List.In q (en_pods n) -> p_key p <> p_key q ->
+     List.In a (p_ports p) -> List.In b (p_ports q) -> ~ k8s_port_clash a b) /\
+  (forall p k ps a b, List.In p (en_pods n) -> List.In (k, ps) (en_ports n) -> k <> p_key p ->
+     List.In a (p_ports p) -> List.In b ps -> ~ k8s_port_clash a b).
+Proof.
+  intros all ops n0 Hnd Hp Hu n. destruct (ex_ports_pairwise_l all ops n0 Hnd Hp Hu) as [H1 H2]. fold n in H1, H2. split.
+  - intros p q a b Hp' Hq Hne Ha Hb Hc. specialize (H1 p q a b Hp' Hq Hne Ha Hb). rewrite (k8s_clash_matches a b Hc) in H1. discriminate.
+  - intros p k ps a b Hp' Hin Hne Ha Hb Hc. specialize (H2 p k ps a b Hp' Hin Hne Ha Hb). rewrite (k8s_clash_matches a b Hc) in H2. discriminate.
+Qed.
+Print Assumptions ex_ports_pairwise.
+
+(* new claim: for every daemon-overhead group that still has a remaining instance type, no two pods of the claim, nor
+   a pod and a daemon of that group, share a host-port triple *)
+Theorem nc_ports_pairwise : forall wk cat all ops n0,
+  NoDup (map (fun op : pod * bool => p_key (fst op)) ops) -> nc_pods n0 = [] ->
+  groups_disjoint (nc_groups n0) -> (forall g, List.In g (nc_groups n0) -> usage_ok (dg_ports g)) ->
+  let n := nc_exec wk cat all n0 ops in
+  forall g, List.In g (nc_groups n) -> live n g ->
+    (forall p q a b, List.In p (nc_pods n) -> List.In q (nc_pods n) -> p_key p <> p_key q ->
+       List.In a (p_ports p) -> List.In b (p_ports q) -> ~ k8s_port_clash a b) /\
+    (forall p k ps a b, List.In p (nc_pods n) -> List.In (k, ps) (dg_ports g) -> k <> p_key p ->
+       List.In a (p_ports p) -> List.In b ps -> ~ k8s_port_clash a b).
+Proof.
+  intros wk cat all ops n0 Hnd Hp Hd Hu n g Hg Hl. destruct (nc_ports_pairwise_l wk cat all ops n0 Hnd Hp Hd Hu g Hg Hl) as [H1 H2]. split.
+  - intros p q a b Hp' Hq Hne Ha Hb Hc. specialize (H1 p q a b Hp' Hq Hne Ha Hb). rewrite (k8s_clash_matches a b Hc) in H1. discriminate.
+  - intros p k ps a b Hp' Hin Hne Ha Hb Hc. specialize (H2 p k ps a b Hp' Hin Hne Ha Hb). rewrite (k8s_clash_matches a b Hc) in H2. discriminate.
+Qed.
+Print Assumptions nc_ports_pairwise.
+
+(* ---- the oracle's expected daemons miss no daemon that may run on the node (so its overhead and its daemon ports
+   are an upper bound of what the node will really carry) ---- *)
+Theorem expected_daemons_complete : forall eff ts ds d, eff_wf eff -> (forall t, List.In t (p_req d) -> valid_term t) ->
+  List.In d ds -> may_run eff ts d -> List.In d (expected_daemons eff ts ds).
+Proof. exact expected_daemons_complete_l. Qed.
+Print Assumptions expected_daemons_complete.
 
 (* ---- relaxation: any number of steps only drops preferred terms, leading OR-ed required terms while one is
    left, ScheduleAnyway constraints, or appends the PreferNoSchedule toleration ---- *)
@@ -164,7 +211,7 @@ Example two_pods_narrow_the_options :
 Proof. exact example_two_pods. Qed.
 
 Example relaxation_chain :
-  let p := mkPod "p" [] [[("a", In, ["1"])]; [("b", In, ["2"])]] [(5, [("c", Exists, [])])] [] [] [("zone", true); ("host", false)] [] [] [] in
+  let p := mkPod "p" [] [[("a", In, ["1"])]; [("b", In, ["2"])]] [(5, [("c", Exists, [])])] [] [] [("zone", true); ("host", false)] [] [] [] [] [] [] in
   p_req (relax_n true 10 p) = [[("b", In, ["2"])]] /\ p_pref (relax_n true 10 p) = [] /\
   p_tsc (relax_n true 10 p) = [("host", false)] /\ p_tols (relax_n true 10 p) = [pns_toleration].
 Proof. exact example_relax. Qed.
